@@ -188,6 +188,8 @@ pub fn load_known_findings() -> KnownFindings {
 pub struct Stats {
     pub evaluations: u64,
     pub nontrivial_hashes: HashSet<u64>,
+    /// distinct non-trivial inputs counted by a fuzz target itself (the engine does not see its inputs)
+    pub fuzz_distinct_nontrivial: u64,
     pub classes: BTreeMap<String, u64>,
     pub known_hits: BTreeMap<String, u64>,
     pub samples: Vec<serde_json::Value>,
@@ -460,6 +462,184 @@ pub fn sample_strategy<S: Strategy>(s: &S, seed: u64, n: usize) -> Vec<S::Value>
 // ---------------------------------------------------------------------------------------------
 // property definition and runner
 
+// ---------------------------------------------------------------------------------------------
+// coverage-guided part: a libFuzzer campaign of one target of /verif/fuzz (thorough tier)
+
+const FUZZ_DIR: &str = "/verif/fuzz";
+const FUZZ_BIN: &str = "/verif/target/fuzz/x86_64-unknown-linux-gnu/release/verif_fuzz";
+
+fn fuzz_build() {
+    let out = std::process::Command::new("cargo")
+        .args(["+nightly", "fuzz", "build", "--fuzz-dir", FUZZ_DIR, "verif_fuzz"])
+        .current_dir(FUZZ_DIR)
+        .env("CARGO_NET_OFFLINE", "true")
+        .env("RUSTFLAGS", "--cfg locka99_opcua_verif -Awarnings")
+        .output();
+    match out {
+        Ok(o) if o.status.success() => {}
+        Ok(o) => harness_error(&format!("cargo fuzz build failed: {}", String::from_utf8_lossy(&o.stderr).lines().rev().take(12).collect::<Vec<_>>().join(" | "))),
+        Err(e) => harness_error(&format!("cargo fuzz build could not be started: {}", e)),
+    }
+}
+
+fn hex(b: &[u8]) -> String {
+    b.iter().map(|x| format!("{:02x}", x)).collect()
+}
+
+fn unhex(s: &str) -> Vec<u8> {
+    (0..s.len() / 2).filter_map(|i| u8::from_str_radix(&s[2 * i..2 * i + 2], 16).ok()).collect()
+}
+
+/// runs the target on one input file; Some(failure) if it does not survive
+fn fuzz_run_one(target: &str, input: &[u8]) -> Option<Failure> {
+    let dir = format!("{}/fuzz/replay-{}-{}", SCRATCH_DIR, target, std::process::id());
+    let _ = std::fs::create_dir_all(&dir);
+    let file = format!("{}/input", dir);
+    if std::fs::write(&file, input).is_err() {
+        harness_error("cannot write the fuzz replay input");
+    }
+    let out = std::process::Command::new(FUZZ_BIN)
+        .arg(&file)
+        .args(["-malloc_limit_mb=16", "-rss_limit_mb=3000", "-timeout=60"])
+        .arg(format!("-artifact_prefix={}/", dir))
+        .env("VERIF_FUZZ_TARGET", target)
+        .output()
+        .unwrap_or_else(|e| harness_error(&format!("fuzz target could not be started: {}", e)));
+    let log = String::from_utf8_lossy(&out.stderr).to_string();
+    let _ = std::fs::remove_dir_all(&dir);
+    if out.status.success() {
+        None
+    } else {
+        Some(fuzz_failure(target, &log))
+    }
+}
+
+fn fuzz_failure(target: &str, log: &str) -> Failure {
+    let lines: Vec<&str> = log.lines().collect();
+    let mut what = String::new();
+    for (i, l) in lines.iter().enumerate() {
+        if l.contains("panicked at") {
+            let loc = l.split("panicked at ").nth(1).unwrap_or("").trim_end_matches(':');
+            let msg = lines.get(i + 1).copied().unwrap_or("");
+            if loc.starts_with("src/") {
+                // the target's own oracle: its messages start with a tag
+                let tag = msg.split(':').next().unwrap_or("oracle").trim();
+                return Failure { sig: format!("fuzz/{}/{}", target, tag), detail: format!("{} {}", l.trim(), msg.chars().take(900).collect::<String>()) };
+            }
+            let f = panic_failure(loc, msg);
+            return Failure { sig: format!("fuzz/{}/{}", target, f.sig), detail: format!("{} {}", l.trim(), msg.chars().take(600).collect::<String>()) };
+        }
+        if l.contains("ERROR: libFuzzer:") || l.contains("ERROR: AddressSanitizer") {
+            what = l.trim().to_string();
+        }
+    }
+    let kind = if what.contains("out-of-memory (malloc") {
+        "single-allocation-above-16MiB"
+    } else if what.contains("AddressSanitizer") {
+        "address-sanitizer"
+    } else if what.contains("deadly signal") {
+        "abort"
+    } else {
+        "other"
+    };
+    Failure { sig: format!("fuzz/{}/{}", target, kind), detail: what }
+}
+
+/// A libFuzzer campaign: fixed number of runs, seed from VERIF_SEED, fresh corpus made of the committed seeds. The oracle is
+/// inside the target; the target counts executions / non-trivial inputs itself and the numbers are added to the evidence.
+pub fn part_fuzz(name: &str, target: &'static str, runs: u64, max_len: u32) -> Part {
+    let pname = name.to_string();
+    Part {
+        name: name.to_string(),
+        run: Box::new(move |ctx: &Ctx| {
+            fuzz_build();
+            let dir = format!("{}/fuzz/{}-{}", SCRATCH_DIR, target, ctx.seed);
+            let _ = std::fs::remove_dir_all(&dir);
+            let corpus = format!("{}/corpus", dir);
+            let _ = std::fs::create_dir_all(&corpus);
+            // seeds: committed small valid inputs, and for the chunk target the valid secured chunks it can make itself
+            if let Ok(rd) = std::fs::read_dir(format!("{}/seeds/{}", FUZZ_DIR, target)) {
+                for e in rd.flatten() {
+                    let _ = std::fs::copy(e.path(), format!("{}/{}", corpus, e.file_name().to_string_lossy()));
+                }
+            }
+            if target == "c09_chunk_recv" {
+                let _ = std::process::Command::new(FUZZ_BIN).arg("-runs=1").env("VERIF_FUZZ_MKCORPUS", &corpus).output();
+            }
+            let stats_file = format!("{}/stats.json", dir);
+            let seed = (ctx.seed % 0xFFFF_FFFE) + 1;
+            let mut child = std::process::Command::new(FUZZ_BIN)
+                .arg(&corpus)
+                .arg(format!("-runs={}", runs))
+                .arg(format!("-seed={}", seed))
+                .arg(format!("-max_len={}", max_len))
+                .args(["-len_control=0", "-malloc_limit_mb=16", "-rss_limit_mb=3000", "-timeout=60", "-print_final_stats=1"])
+                .arg(format!("-artifact_prefix={}/", dir))
+                .env("VERIF_FUZZ_TARGET", target)
+                .env("VERIF_FUZZ_STATS", &stats_file)
+                .stdout(std::process::Stdio::null())
+                .stderr(std::fs::File::create(format!("{}/log", dir)).map(std::process::Stdio::from).unwrap_or_else(|_| std::process::Stdio::null()))
+                .spawn()
+                .unwrap_or_else(|e| harness_error(&format!("fuzz target could not be started: {}", e)));
+            let started = std::time::Instant::now();
+            let status = loop {
+                match child.try_wait() {
+                    Ok(Some(st)) => break st,
+                    Ok(None) => {
+                        if started.elapsed() > std::time::Duration::from_secs(3 * 3600) {
+                            let _ = child.kill();
+                            harness_error("fuzz campaign exceeded its wall-clock guard of 3 h");
+                        }
+                        std::thread::sleep(std::time::Duration::from_millis(200));
+                    }
+                    Err(e) => harness_error(&format!("waiting for the fuzz target: {}", e)),
+                }
+            };
+            let log = std::fs::read_to_string(format!("{}/log", dir)).unwrap_or_default();
+            // what the target counted
+            let stats: serde_json::Value = std::fs::read_to_string(&stats_file).ok().and_then(|s| serde_json::from_str(&s).ok()).unwrap_or_default();
+            let executed = log.lines().find_map(|l| l.strip_prefix("stat::number_of_executed_units:").and_then(|x| x.trim().parse::<u64>().ok())).or_else(|| stats.get("executions").and_then(|x| x.as_u64())).unwrap_or(0);
+            {
+                let mut st = ctx.stats.borrow_mut();
+                st.evaluations += executed;
+                *st.per_part.entry(pname.clone()).or_insert(0) += executed;
+                st.fuzz_distinct_nontrivial += stats.get("distinct_nontrivial").and_then(|x| x.as_u64()).unwrap_or(0);
+                if let Some(c) = stats.get("classes").and_then(|c| c.as_object()) {
+                    for (k, v) in c {
+                        *st.classes.entry(format!("fuzz:{}", k)).or_insert(0) += v.as_u64().unwrap_or(0);
+                    }
+                }
+                if let Some(l) = log.lines().rev().find(|l| l.contains(" cov: ")) {
+                    st.notes.push(format!("libFuzzer {} ({} runs requested, seed {}): {}", target, runs, seed, l.trim().chars().take(160).collect::<String>()));
+                }
+            }
+            if status.success() {
+                return None;
+            }
+            // a finding: the artifact libFuzzer wrote is the reproducible unit
+            let artifact = std::fs::read_dir(&dir).ok().and_then(|rd| rd.flatten().map(|e| e.path()).find(|p| p.file_name().map(|n| { let n = n.to_string_lossy(); n.starts_with("crash-") || n.starts_with("oom-") || n.starts_with("timeout-") || n.starts_with("leak-") }).unwrap_or(false)));
+            let Some(artifact) = artifact else { harness_error(&format!("fuzz target {} ended with {:?} without an artifact: {}", target, status, log.lines().rev().take(5).collect::<Vec<_>>().join(" | "))) };
+            let name = artifact.file_name().map(|n| n.to_string_lossy().to_string()).unwrap_or_default();
+            if name.starts_with("timeout-") || (name.starts_with("oom-") && !log.contains("out-of-memory (malloc")) {
+                // a slow unit or the resident-set limit: inconclusive, never a verdict
+                harness_error(&format!("fuzz target {} hit a resource guard ({}); input kept at {}", target, name, artifact.display()));
+            }
+            let input = std::fs::read(&artifact).unwrap_or_default();
+            let failure = fuzz_failure(target, &log);
+            Some(Report { part: pname.clone(), case: serde_json::json!({ "fuzz_target": target, "input_hex": hex(&input) }), failure })
+        }),
+        replay: Box::new(move |_ctx: &Ctx, v: serde_json::Value| {
+            let input = unhex(v.get("input_hex").and_then(|x| x.as_str()).unwrap_or(""));
+            let target = v.get("fuzz_target").and_then(|x| x.as_str()).unwrap_or(target).to_string();
+            fuzz_build();
+            match fuzz_run_one(&target, &input) {
+                None => Ok(()),
+                Some(f) => Err(f),
+            }
+        }),
+    }
+}
+
 pub struct PropDef {
     pub id: &'static str,
     pub rule: &'static str,
@@ -508,7 +688,7 @@ pub fn write_evidence(prop: &PropDef, ctx: &Ctx, wall_s: f64, violations: u32, e
         "level": "exploration",
         "coverage": {
             "evaluations": st.evaluations,
-            "distinct_nontrivial": st.nontrivial_hashes.len(),
+            "distinct_nontrivial": st.nontrivial_hashes.len() as u64 + st.fuzz_distinct_nontrivial,
             "rule": prop.rule,
             "samples": samples,
             "classes": st.classes,
@@ -609,7 +789,7 @@ pub fn run_property(prop: &PropDef, tier: Tier, seed: u64, only_part: Option<&st
         tier.name(),
         seed,
         st.evaluations,
-        st.nontrivial_hashes.len(),
+        st.nontrivial_hashes.len() as u64 + st.fuzz_distinct_nontrivial,
         st.known_hits.values().sum::<u64>(),
         wall,
         if violations == 0 { "ok" } else { "VIOLATION" }
@@ -630,7 +810,11 @@ pub fn replay_file(props: &[PropDef], path: &str) -> i32 {
     let Some(prop) = props.iter().find(|p| p.id == rf.property) else {
         harness_error(&format!("unknown property {}", rf.property));
     };
-    let parts = (prop.parts)(Tier::Quick);
+    // the thorough tier has every part of the quick tier and the coverage-guided ones
+    let mut parts = (prop.parts)(Tier::Quick);
+    if !parts.iter().any(|p| p.name == rf.part) {
+        parts = (prop.parts)(Tier::Thorough);
+    }
     let Some(p) = parts.iter().find(|p| p.name == rf.part) else {
         harness_error(&format!("unknown part {}", rf.part));
     };
